@@ -31,6 +31,8 @@ type fakeRequestor struct {
 	bm        *bitcoin_reader.BlockManager
 	limit     int
 	overLimit string
+	silent    []*fakeNode // nodes that accepted a request and never answer
+	silentAt  []time.Time // when each of them was asked
 }
 
 func (r *fakeRequestor) RequestBlock(ctx context.Context, hash bitcoin.Hash32, handler bitcoin_reader.HandleBlock,
@@ -60,6 +62,12 @@ func (r *fakeRequestor) RequestBlock(ctx context.Context, hash bitcoin.Hash32, h
 	}
 	node := &fakeNode{id: uuid.New()}
 	node.request(handler, onStop)
+	if behaviour == "silent" {
+		r.mu.Lock()
+		r.silent = append(r.silent, node)
+		r.silentAt = append(r.silentAt, vsched.Now())
+		r.mu.Unlock()
+	}
 	vsched.GoNamed(fmt.Sprintf("node%d-%s", i, behaviour), func() {
 		switch behaviour {
 		case "deliver":
@@ -83,6 +91,7 @@ type mgrConfig struct {
 	requests   int
 	abort      bool
 	interrupt  bool
+	after      time.Duration // abort / interrupt only after this much virtual time (all downloads in flight)
 }
 
 func (c mgrConfig) name() string {
@@ -92,6 +101,9 @@ func (c mgrConfig) name() string {
 	}
 	if c.interrupt {
 		s += "+interrupt"
+	}
+	if c.after > 0 {
+		s += fmt.Sprintf("-after-%s", c.after)
 	}
 	return s
 }
@@ -113,8 +125,10 @@ func managerScenario(c mgrConfig) func() func() []string {
 		managerDone := make(chan interface{})
 		var runErr error
 		runReturned := false
+		var interruptAt, returnedAt time.Time
 		vsched.GoNamed("manager", func() {
 			runErr = bm.Run(bg, interrupt)
+			returnedAt = vsched.Now()
 			runReturned = true
 			vsched.Close(managerDone)
 		})
@@ -165,11 +179,15 @@ func managerScenario(c mgrConfig) func() func() []string {
 			requesterDone = true
 			// orderly shutdown after all requests
 			if !c.interrupt {
+				interruptAt = vsched.Now()
 				vsched.Close(interrupt)
 			}
 		})
 		if c.abort {
 			vsched.GoNamed("aborter", func() {
+				if c.after > 0 {
+					vsched.Sleep(c.after)
+				}
 				abortMu.Lock()
 				ch := abortCh
 				abortMu.Unlock()
@@ -179,12 +197,34 @@ func managerScenario(c mgrConfig) func() func() []string {
 			})
 		}
 		if c.interrupt {
-			vsched.GoNamed("interrupter", func() { vsched.Close(interrupt) })
+			vsched.GoNamed("interrupter", func() {
+				if c.after > 0 {
+					vsched.Sleep(c.after)
+				}
+				interruptAt = vsched.Now()
+				vsched.Close(interrupt)
+			})
 		}
 		return func() []string {
 			var problems []string
 			if !runReturned {
 				problems = append(problems, "run-not-returned: BlockManager.Run did not return")
+			}
+			_ = returnedAt
+			if !interruptAt.IsZero() {
+				// shutdown cancels every download: a node that was asked before the interrupt and never
+				// answers must be told to cancel when the manager stops, not only when its download's
+				// own two-minute request timeout fires
+				for i, n := range req.silent {
+					if req.silentAt[i].After(interruptAt) {
+						continue
+					}
+					if len(n.cancelTimes) == 0 {
+						problems = append(problems, fmt.Sprintf("download-never-cancelled: silent node %d was never told to cancel", i))
+					} else if d := n.cancelTimes[0].Sub(interruptAt); d > 60*time.Second {
+						problems = append(problems, fmt.Sprintf("download-not-cancelled-at-shutdown: silent node %d was only told to cancel %s after the interrupt (its own request timeout)", i, d.Round(time.Second)))
+					}
+				}
 			}
 			if !requesterDone {
 				problems = append(problems, "requester-blocked: the requester never got a terminal signal")
@@ -241,6 +281,9 @@ func managerScenarios(thorough bool) []*scenario {
 		{script: []string{"slow", "deliver"}, concurrent: 2, requests: 1},
 		{script: []string{"deliver", "deliver"}, concurrent: 1, requests: 2},
 		{script: []string{"drop-busy", "deliver"}, concurrent: 1, requests: 1},
+		// four downloads of one block in flight (the node command runs five), then abort / shutdown:
+		// every one of them has to be cancelled while others finish and leave the list
+		{script: []string{"silent", "silent", "silent", "silent"}, concurrent: 4, requests: 1, interrupt: true, after: 16 * time.Second},
 	}
 	if thorough {
 		configs = append(configs,
@@ -250,6 +293,7 @@ func managerScenarios(thorough bool) []*scenario {
 			mgrConfig{script: []string{"deliver", "drop", "deliver"}, concurrent: 1, requests: 2, abort: true},
 			mgrConfig{script: []string{"silent", "silent", "deliver"}, concurrent: 3, requests: 1},
 			mgrConfig{script: []string{"none"}, concurrent: 1, requests: 1},
+			mgrConfig{script: []string{"silent", "silent", "silent", "silent"}, concurrent: 4, requests: 1, abort: true, after: 16 * time.Second},
 			mgrConfig{script: []string{"drop-busy", "drop-busy", "deliver"}, concurrent: 2, requests: 1, interrupt: false, abort: false},
 		)
 	}
